@@ -25,7 +25,7 @@ const Module = "github.com/tdewolff/minify/v2"
 // LibDirs are the library packages whose synchronisation is hooked.
 var LibDirs = []string{".", "css", "html", "js", "json", "svg", "xml", "minify"}
 
-var shimmed = map[string]bool{"RWMutex": true, "Mutex": true, "WaitGroup": true, "Once": true}
+var shimmed = map[string]bool{"RWMutex": true, "Mutex": true, "WaitGroup": true, "Once": true, "Pool": true}
 
 // Result describes what was generated.
 type Result struct {
